@@ -151,6 +151,22 @@ pub struct Replica<SP: StorageProvider> {
     pub graph: GraphId,
     pub sink: RecSink,
     pub log: Rc<RefCell<AuditLog>>,
+    /// keeps backing resources (a scratch directory) alive
+    pub guard: Option<Box<dyn std::any::Any>>,
+}
+
+pub type FileProvider = aranya_runtime::storage::linear::LinearStorageProvider<aranya_runtime::storage::linear::libc::FileManager>;
+pub type FileReplica = Replica<FileProvider>;
+
+impl FileReplica {
+    /// A replica on the libc file backend in a fresh scratch directory (removed with the replica).
+    pub fn new_file(graph: GraphId) -> Self {
+        let scratch = mcx::Scratch::new("rtfile");
+        let fm = aranya_runtime::storage::linear::libc::FileManager::new(scratch.path()).expect("FileManager::new");
+        let mut r = Replica::new(aranya_runtime::storage::linear::LinearStorageProvider::new(fm), graph);
+        r.guard = Some(Box::new(scratch));
+        r
+    }
 }
 
 pub type MemReplica = Replica<MemStorageProvider>;
@@ -169,7 +185,7 @@ impl<SP: StorageProvider> Replica<SP> {
     pub fn new(provider: SP, graph: GraphId) -> Self {
         let store = AuditStore::new();
         let log = store.shared_log();
-        Replica { client: ClientState::new(store, provider), buffers: RuntimeBuffers::new(), graph, sink: RecSink::default(), log }
+        Replica { client: ClientState::new(store, provider), buffers: RuntimeBuffers::new(), graph, sink: RecSink::default(), log, guard: None }
     }
 
     pub fn trx(&mut self) -> Transaction<SP, AuditStore> {
